@@ -11,8 +11,10 @@
      modify [minimum]/[maximum]; [enum] values are compared with the instance.
      [nullable: true] is read as "null is accepted" for every kind of schema
      (the reading of OpenAPI 3.0.0-3.0.2 and of the tools dropshot's documents
-     are fed to); see [valid_oas_strict_nullable] in J2OasProofs.v for the
-     other reading.
+     are fed to).  Under the 3.0.3 clarification [nullable] has an effect only
+     beside a [type] in the same schema object; with that reading every
+     [Option<Struct>] = {allOf:[$ref], nullable:true} would reject null.  That
+     reading is not the one judged here (stated in the trusted base).
 
    Both are structural on the schema.  [$ref] is interpreted through
    [env : str -> json -> bool], so every statement proved for all [env] holds
